@@ -10,6 +10,7 @@ branch conditions and trip counts are inputs, so every path is run - and checks
 that the event log is well nested and closed at the end (SemRegion.tla).
 '''
 import itertools
+import os
 
 from pv import core, sem
 from pv.export import Unsupported
@@ -175,6 +176,81 @@ def _decl_filter(prog):
     return prog
 
 
+# ---- second family: PSyKAl invokes (GOcean / LFRic), names and textual nesting only
+def psykal_items(tier):
+    base = os.path.join(core.REPO, "src", "psyclone", "tests", "test_files")
+    out = []
+    for api, rel in (("gocean1.0", "gocean1p0/single_invoke_three_kernels.f90"),
+                     ("dynamo0.3", "dynamo0p3/4_multikernel_invokes.f90")):
+        for tname in ("Extract", "Profile"):
+            for mode in ("none", "separate", "shared", "shared-named", "separate-named"):
+                out.append((api, os.path.join(base, rel), tname, mode))
+    return out
+
+
+def _build_psykal(item):
+    import re
+    from psyclone.configuration import Config
+    from psyclone.parse.algorithm import parse
+    from psyclone.psyGen import PSyFactory
+    from psyclone.psyir.transformations import TransformationError
+    api, path, tname, mode = item
+    cid = f"psykal|{api}|{os.path.basename(path)}|{tname}|{mode}"
+    try:
+        Config.get().api = api
+        _, info = parse(path, api=api)
+        psy = PSyFactory(api, distributed_memory=False).create(info)
+        sched = psy.invokes.invoke_list[0].schedule
+        if tname == "Profile":
+            from psyclone.psyir.transformations import ProfileTrans
+            trans = ProfileTrans()
+        elif api == "gocean1.0":
+            from psyclone.domain.gocean.transformations import GOceanExtractTrans
+            trans = GOceanExtractTrans()
+        else:
+            from psyclone.domain.lfric.transformations import LFRicExtractTrans
+            trans = LFRicExtractTrans()
+        base_opts = {"create_driver": False} if tname == "Extract" else {}
+        named = mode.endswith("named")
+        if named:
+            base_opts["region_name"] = ("usermod", "userreg")
+        shared = dict(base_opts)
+        for k in (0, 1):
+            if mode == "none":
+                opts = None if tname == "Profile" else dict(base_opts)
+            elif mode.startswith("shared"):
+                opts = shared
+            else:
+                opts = dict(base_opts)
+            trans.apply(sched.children[k], opts)
+        code = str(psy.gen)
+    except TransformationError:
+        return [{"id": cid, "status": "refused"}]
+    except Exception as err:   # noqa
+        return [{"id": cid, "status": "crash", "why": f"{type(err).__name__}: {err}"[:200]}]
+    body, regs = [], []
+    for line in code.splitlines():
+        m = re.search(r"CALL\s+(\w+)\s*%\s*(PreStart|PostEnd)\s*(\((.*)\))?", line, re.I)
+        if not m:
+            continue
+        var = m.group(1).lower()
+        if m.group(2).lower() == "prestart":
+            names = re.findall(r'"([^"]*)"', m.group(4) or "")
+            body.append({"k": "event", "what": "start", "name": var})
+            regs.append({"var": var, "module": names[0] if names else "",
+                         "region": names[1] if len(names) > 1 else "", "user": named})
+        else:
+            body.append({"k": "event", "what": "end", "name": var})
+    if len(regs) != 2:
+        return [{"id": cid, "status": "unsupported", "why": f"{len(regs)} regions found"}]
+    case = {"id": cid, "decls": [], "dom": [], "fills": [1],
+            "subs": {"#none": {"formals": [], "locals": [], "body": []}},
+            "body": body, "regions": regs}
+    text = "\n".join(l for l in code.splitlines() if "PreStart" in l or "PostEnd" in l)
+    return [{"id": cid, "status": "accepted", "case": case, "src": cid, "after": text,
+             "trans": tname + "Trans(psykal)"}]
+
+
 # ------------------------------------------------------------ known findings
 def _region_has_jump(rec, kinds):
     '''some region of the lowered program (statements between a start and its
@@ -221,6 +297,8 @@ def run(tier):
     core.setup_psyclone_env()
     out = core.Outcome("C28", tier, "model_checking", matchers=MATCHERS)
     results = [r for part in core.pool_map(_build, items(tier), chunksize=1) for r in part]
+    results += [r for part in core.pool_map(_build_psykal, psykal_items(tier), chunksize=1)
+                for r in part]
     stat = {}
     for r in results:
         stat[r["status"]] = stat.get(r["status"], 0) + 1
